@@ -185,6 +185,16 @@ package common
 //@   ensures (bA == nil || len(bA.Elems) == 0) ==> r == nil
 //@   ensures [fieldsCopied] bA != nil && len(bA.Elems) != 0 ==> fresh(r) && r.Bits == bA.Bits && r.Elems == bA.Elems
 
+// Overflow-checked addition and subtraction (verified against math/bits.Add64/Sub64).
+//@ func SafeAdd(x, y uint64) (r uint64, overflow bool)
+//@   for C10 C09
+//@   ensures overflow <==> x + y > 18446744073709551615
+//@   ensures !overflow ==> r == x + y
+//@ func SafeSub(x, y uint64) (r uint64, overflow bool)
+//@   for C10 C09
+//@   ensures overflow <==> x < y
+//@   ensures !overflow ==> r == x - y
+
 // Overflow-checked multiplication (math/bits.Mul64).
 //@ trusted func SafeMul(x, y uint64) (r uint64, overflow bool)
 //@   ensures overflow <==> x * y > 18446744073709551615
@@ -195,6 +205,16 @@ package common
 //@   for C10 C13
 //@   ensures [nilStaysNil] len(b) == 0 && cap(b) == 0 ==> len(copiedBytes) == 0
 //@   ensures [newMemorySameBytes] len(copiedBytes) == len(b) && (len(b) > 0 ==> fresh(copiedBytes)) && (forall i int :: 0 <= i && i < len(b) ==> copiedBytes[i] == b[i])
+
+// RightPadBytes: the slice itself when already long enough, else a zero-padded copy of length l.
+//@ func RightPadBytes(slice []byte, l int) (r []byte)
+//@   for C10
+//@   safe
+//@   requires l <= 137438953440
+//@   modifies nothing
+//@   ensures [lengthIsMax] len(r) == ite(l <= len(slice), len(slice), l)
+//@   ensures [prefixKept] forall i int :: 0 <= i && i < len(slice) ==> r[i] == slice[i]
+//@   ensures [paddingIsZero] forall i int :: len(slice) <= i && i < l ==> r[i] == 0
 
 // Sub (used when choosing what to gossip to a peer, with the peer's own bit array as operand) never
 // indexes outside either array, whatever the two sizes.
